@@ -14,11 +14,14 @@ func main() {
 		fmt.Fprintln(os.Stderr, "usage: vharness <subcommand> [args]")
 		os.Exit(2)
 	}
+	setBech32()
 	sub := os.Args[1]
 	args := os.Args[2:]
 	switch sub {
 	case "keys":
 		cmdKeys(args)
+	case "chain":
+		cmdChain(args)
 	case "denom":
 		cmdDenom(args)
 	default:
